@@ -11,8 +11,8 @@
 //!            after the other and, <delay>*100 us after the start, the mock kills every pool
 //!            connection of node 0 -- requests are being SUBMITTED at the instant the router ends
 //!            (markers: 1 + (round*n + task)*j + k; res lists all of them)
-//!          | split (no fault: from the j-th request on every reply is written in pieces, header and body
-//!            split across reads) | neg (frames on streams -1 and -7 precede the reply: ignored)
+//!          | split (no fault: the replies to the j-th..j+2-th request are written in pieces, header and
+//!            body split across reads) | neg (frames on streams -1 and -7 precede the reply: ignored)
 //!          | flagop | flagcomp (a READY frame / a frame with the compression flag on the request's own
 //!            stream: that request fails, the connection lives)
 //!          | dup (the reply is sent twice: the second copy is a frame nobody waits for)
@@ -328,6 +328,9 @@ async fn run_case(c: Case) -> String {
             }
             // kinds that leave the connection alive
             match c.fault.as_str() {
+                // (only three replies are written in pieces: the pauses block the mock's connection loop,
+                // and a keepalive answer must not be starved by them)
+                "split" if k >= c.j + 3 => return Some(vec![echo(&c, marker)]),
                 "split" => {
                     let len = echo_frame(&c, marker, ctx.stream).encode().len();
                     let offs = vec![1 + c.off % 8, 9, 9 + 1 + c.off % (len - 10), len - 1];
@@ -590,7 +593,9 @@ fn gen_cases(seed: u64, n: u64, thorough: bool) -> Vec<Case> {
         c.j = r.range(3, 8) as usize;
         c.off = r.range(6, 12) as usize;
         c.delay = r.below(8);
-        c.nodes = if r.chance(1, 5) { 2 } else { 1 };
+        // one node: every connection lives about one round, which keeps the (quadratic) replay of a
+        // connection trace through the extracted model cheap
+        c.nodes = 1;
         c.shards = 0;
         c.prep = r.bool();
         c.pad = r.below(61) as usize;
